@@ -18,7 +18,7 @@ RULE = ("E1: configurations = all sets of <= 3 resources at paths of length <= 3
         "rotated by VERIF_SEED), combined with 0-2 nested sites (inner resources at [], [a], [a,b]; one nested a second level) and "
         "a path-capable leaf, x all 121 request paths of length <= 4, each rendered through Context.render_to_pipe; discovery and "
         "filters rt/if/ct/href (exact and prefix*) per configuration; every Uri-Path-Abbrev value against the spelled-out path over six "
-        ".well-known trees; E3: add/remove histories of length <= 3 over 14 operations")
+        ".well-known trees; request bodies arriving in Block1 blocks below nested sites (stripped path and reconstructed URI); E3: add/remove histories of length <= 3 over 14 operations")
 ASSUMPTIONS = [
     "nested sites sit at non-empty paths that do not end in an empty component (as the class documents)",
     "filter queries carry a single criterion (RFC 6690 section 4.1)",
@@ -49,6 +49,10 @@ class Rec(resource.Resource):
 
     async def render_get(self, request):
         self.log.append((self.rid, tuple(request.opt.uri_path), request.get_request_uri()))
+        return Message(payload=self.rid.encode())
+
+    async def render_post(self, request):
+        self.log.append((self.rid, tuple(request.opt.uri_path), request.get_request_uri(), bytes(request.payload)))
         return Message(payload=self.rid.encode())
 
 
@@ -333,6 +337,46 @@ def check_abbrev(res, cfg, with_wkc):
         sw.dispose()
 
 
+def check_blockwise_uri(res):
+    """A request body that arrives in blocks is reassembled below the site: the handler still sees the stripped path and can
+    still reconstruct the original request URI - exactly as for a body that came in one piece."""
+    from aiocoap import POST
+    inner2 = (((("leaf",), 0),), (), ())
+    inner1 = (((("b",), 0), ((), 1)), ((("in",), inner2),), ())
+    cfg = ((((("top",), 0), (("a", "b"), 2))), ((("s",), inner1),), ())
+    for path in (("top",), ("a", "b"), ("s", "b"), ("s", ""), ("s", "in", "leaf")):
+        for blocks in (None, (16, 5), (16, 16, 1)):
+            log = []
+            sw = SiteWorld(lambda sw_: build_site(cfg, log))
+            try:
+                body = b""
+                r = None
+                if blocks is None:
+                    body = b"x" * 21
+                    r = sw.do(Message(code=POST, uri_path=list(path), uri_query=["k=v"], payload=body), 1)
+                else:
+                    for i, n in enumerate(blocks):
+                        chunk = bytes([0x41 + i]) * n
+                        body += chunk
+                        m = Message(code=POST, uri_path=list(path), uri_query=["k=v"], payload=chunk)
+                        m.opt.block1 = (i, i < len(blocks) - 1, 0)
+                        r = sw.do(m, 1)
+                res.evaluations += 1
+                res.traces += 1
+                want = model_route(cfg, path)
+                uri = BASE + "/" + "/".join(path) + "?k=v"
+                exp = [(want[0], want[1], uri, body)]
+                code = r.code.dotted if hasattr(r, "code") else repr(r)
+                case = {"blockwise_uri": list(path), "blocks": blocks}
+                if log != exp or not code.startswith("2."):
+                    res.violate(Violation("routing", exp, {"code": code, "handler": log}, "message.py:get_request_uri (_original_request_path)", case,
+                                          key="block1:" + ("uri" if log and log[0][:2] == exp[0][:2] and log[0][3:] == exp[0][3:] else "other")))
+                res.outcomes.add(core.digest(("bw", code, len(log))))
+                res.signatures.add(core.digest(("bw", path, blocks)))
+            finally:
+                sw.dispose()
+
+
 INNER = [((((), 0),), (), ()), (((("a",), 1),), (), ()), (((("a", "b"), 2), ((), 3)), (), ()),
          (((("a",), 0),), ((("b",), ((((), 1), (("a",), 0)), (), ())),), ())]    # the last one nests a second level at inner /b
 
@@ -376,6 +420,7 @@ def job(arg):
         for cfg in abbrev_configs():
             for with_wkc in (True, False):
                 check_abbrev(res, cfg, with_wkc)
+        check_blockwise_uri(res)
         res.sample({"uri_path_abbrev": 301, "same_as_path": list(ABBREV[301])})
     else:
         histories(res, items)
@@ -512,7 +557,9 @@ def _tup(x):
 
 def replay(case, scenario, seed):
     res = Result()
-    if "abbrev_cfg" in case:
+    if "blockwise_uri" in case:
+        check_blockwise_uri(res)
+    elif "abbrev_cfg" in case:
         check_abbrev(res, _tup(case["abbrev_cfg"]), case["wkc"])
     elif "history" in case:
         h = _tup(case["history"])
